@@ -122,7 +122,7 @@ class Run:
                 self.states.add(_digest(o1))
         if out.ok:
             r = out.result
-            if _heapish(r):
+            if _heapish(r) and not step.get("defer"):  # "defer": the result must not be looked at yet
                 o2 = obs(r)
                 line.append(o2)
                 self.states.add(_digest(o2))
